@@ -270,7 +270,7 @@ def pos_choice(rng, T):
     """sample position in [0,T): boundary heavy (first two, last six)."""
     u = rng.random()
     if u < 0.30:
-        return T - 1 - rng.randrange(0, 6)
+        return max(0, T - 1 - rng.randrange(0, 6))
     if u < 0.38:
         return rng.randrange(0, 2)
     return rng.randrange(0, T)
@@ -378,7 +378,7 @@ def gen_batches(ctx):
     rng = ctx.rng
     out = []
     kinds = ["spike"] * 10 + ["small"] * 3 + ["plateau"] * 3 + ["ratio"] * 3 + ["first"] * 1 + ["flat"] * 1
-    nb = 5200 if ctx.thorough() else 420
+    nb = 5200 if ctx.thorough() else 600
     for b in range(nb):
         u = rng.random()
         T = rng.choice([10, 11, 12, 16, 40, 82, 121, 128, 200, rng.randrange(10, 201), rng.randrange(10, 60)])
